@@ -1,3 +1,88 @@
-(* placeholder until Theory/Mna.v lands *)
-From CC Require Import Theory.Field Theory.Complex Model.Network.
-Example C01_model_runs : True. Proof. exact I. Qed.
+(* C01 — Steady-state solution obeys Kirchhoff's laws and every element law.
+   Statements only; every proof is [exact <lemma>].  Model: Model/Network.v (mirrors
+   Network/{elements,network}.py and NodalAnalysis/{label_mapping,node_analysis,bias_point_analysis,solution}.py). *)
+From Coq Require Import List Bool ZArith NArith.
+From CC Require Import Theory.Field Theory.Complex Theory.Labels Model.Network Theory.Spec Theory.Mna
+  Theory.MnaComplete Theory.Api.
+Import ListNotations.
+
+(* Every solution vector of the assembled MNA system is a solution of the circuit equations: KCL at every
+   node *including the reference node*, reference potential 0, every branch obeys its own law. *)
+Theorem C01_sound : forall (K : fops) (KOK : fops_ok K) (n : network K) (WF : wf n) (x : list K),
+  solves n x -> CircuitSpec n (phi_of n x) (flow_of n x).
+Proof. exact mna_sound. Qed.
+Print Assumptions C01_sound.
+
+(* Conversely every solution of the circuit equations is a solution vector of the MNA system. *)
+Theorem C01_complete : forall (K : fops) (KOK : fops_ok K) (n : network K) (WF : wf n) phi j,
+  CircuitSpec n phi j -> solves n (vec n phi j).
+Proof. exact mna_complete. Qed.
+Print Assumptions C01_complete.
+
+(* For a well-posed network the MNA system has exactly one solution ... *)
+Theorem C01_unique_vector : forall (K : fops) (KOK : fops_ok K) (n : network K) (WF : wf n) (x x' : list K),
+  WellPosed n -> solves n x -> solves n x' -> x = x'.
+Proof. exact mna_unique. Qed.
+Print Assumptions C01_unique_vector.
+
+Theorem C01_solvable : forall (K : fops) (KOK : fops_ok K) (n : network K) (WF : wf n),
+  WellPosed n -> exists x, solves n x.
+Proof. exact mna_exists. Qed.
+Print Assumptions C01_solvable.
+
+(* ... and what is read off it is THE solution of the circuit equations. *)
+Theorem C01_unique : forall (K : fops) (KOK : fops_ok K) (n : network K) (WF : wf n) (x : list K) phi j,
+  WellPosed n -> solves n x -> CircuitSpec n phi j -> agree_on n (phi_of n x) phi (flow_of n x) j.
+Proof. intros K KOK n WF x phi j WP S C. exact (proj2 WP _ _ _ _ (mna_sound K KOK n WF x S) C). Qed.
+Print Assumptions C01_unique.
+
+(* The model's solver never returns a wrong vector (it is checked), and whenever it returns, the
+   reported quantities are the candidate above in the documented reference directions. *)
+Theorem C01_solver_sound : forall (K : fops) (KOK : fops_ok K) (n : network K),
+  (forall b, In b (branches n) -> node1 b <> node2 b) ->
+  forall s, solve_network n = Ok s -> s_net s = n /\ wf n /\ solves n (s_x s).
+Proof. exact solve_network_sound. Qed.
+Print Assumptions C01_solver_sound.
+
+Theorem C01_reported_potential : forall (K : fops) (n : network K) (x : list K) l,
+  (l = zero n \/ In l (node_index n)) -> get_potential {| s_net := n; s_x := x |} l = Ok (phi_of n x l).
+Proof. exact api_potential. Qed.
+Theorem C01_reported_voltage : forall (K : fops) (n : network K) (WF : wf n) (x : list K) b,
+  In b (branches n) -> get_voltage {| s_net := n; s_x := x |} (bid b) = Ok (bvolt (phi_of n x) b).
+Proof. exact api_voltage. Qed.
+(* first->second flow for passive elements and ideal sources, generator direction (minus the flow) for
+   linear sources *)
+Theorem C01_reported_current : forall (K : fops) (KOK : fops_ok K) (n : network K) (WF : wf n) (x : list K) b,
+  In b (branches n) -> get_current {| s_net := n; s_x := x |} (bid b) = Ok (reported n x b).
+Proof. exact api_current. Qed.
+Theorem C01_reported_power : forall (K : fops) (KOK : fops_ok K) (n : network K) (WF : wf n) (x : list K) b,
+  In b (branches n) ->
+  get_power {| s_net := n; s_x := x |} (bid b) = Ok (fmul K (bvolt (phi_of n x) b) (fconj K (reported n x b))).
+Proof. exact api_power. Qed.
+Print Assumptions C01_reported_current.
+
+(* Not proved (hence the label): completeness of the executable Gauss-Jordan procedure, i.e.
+   WellPosed n -> solve_network n <> Err ESingular.  C01_solvable + C01_unique_vector show the system it is
+   given has exactly one solution; that the elimination finds it is checked per run by the correspondence. *)
+Definition C01_never_fails_full : Prop := forall (K : fops) (KOK : fops_ok K) (n : network K),
+  wf n -> WellPosed n -> exists s, solve_network n = Ok s.
+
+(* ---- non-vacuity: a concrete network (ideal source on the reference node only, a linear source,
+   parallel branches, labels '10' < '9') meets the hypotheses and is solved ---- *)
+Definition L (z : Z) : label := [Z.to_N z].
+Definition ex_net : network CQ :=
+  {| zero := L 48;
+     branches := [ Build_branch (L 49) (L 48) (voltage_source (L 86) (cq 5 1 1 1) (cq 0 1 0 1));
+                   Build_branch (L 49) [49%N; 48%N] (resistor (L 82) (cq 2 1 0 1));
+                   Build_branch [49%N; 48%N] (L 57) (impedance (L 90) (cq 3 1 4 1));
+                   Build_branch (L 57) [49%N; 48%N] (admittance (L 89) (cq 1 2 (-1) 4));
+                   Build_branch (L 48) (L 57) (voltage_source (L 76) (cq 7 1 0 1) (cq 2 1 1 1));
+                   Build_branch (L 57) (L 49) (current_source (L 73) (cq (-2) 1 1 2) (cq 0 1 0 1)) ] |}.
+
+Example C01_example_wf : wfb ex_net = true.
+Proof. vm_compute. reflexivity. Qed.
+Example C01_example_solvedb : solvedb ex_net = true.
+Proof. vm_compute. reflexivity. Qed.
+Example C01_example_solved : exists s, solve_network ex_net = Ok s /\ wf ex_net /\ solves ex_net (s_x s)
+            /\ CircuitSpec ex_net (phi_of ex_net (s_x s)) (flow_of ex_net (s_x s)).
+Proof. exact (solvedb_ok CQ_ok ex_net C01_example_wf C01_example_solvedb). Qed.
